@@ -216,6 +216,7 @@ func genGC(g *lib.RNG, faults bool) []Op {
 		s.committed("")
 	}
 	lag := uint64(lib.Pick(g, []int{0, 1, 1, 3}))
+	fat := g.Intn(3) == 0
 	cleanups := 0
 	wantCleanups := lib.Pick(g, []int{1, 1, 1, 2})
 	restartEvery := lib.Pick(g, []int{0, 0, 0, 280, 400})
@@ -224,7 +225,11 @@ func genGC(g *lib.RNG, faults bool) []Op {
 		if !s.alive || s.closed {
 			s.open()
 		}
-		for k := g.Intn(3); k > 0; k-- {
+		k := g.Intn(3)
+		if fat {
+			k = g.Range(2, 5) // logs grow past Pebble's 32 KiB block: batches written as several chunks
+		}
+		for ; k > 0; k-- {
 			h := s.cur
 			if g.Intn(8) == 0 {
 				h = s.cur + 1
